@@ -192,6 +192,7 @@ def run(ctx):
   from sa import pitfalls
   pitfalls.apply(ctx, 'PITFALL', [fi_ for q_, fi_ in sorted(ctx.P.module('abc_parser').all_functions.items()) if '<locals>' not in q_], ['shadowed-literal-branch'], {
       'shadowed-literal-branch': 'a notation the parser has a branch for (M:C| is cut time, 2/2) is read by the branch of another one (M:C, 4/4)'})
+  midi_range_inclusive(ctx)
   current_qpm(ctx, ctx.cls('abc_parser:ABCTune'), 'TEMPO/last-read-governs')
   tune_separation(ctx, 'TUNES/blank-line-separation')
   bare_tempo_unit(ctx, ctx.cls('abc_parser:ABCTune'), 'TEMPO/bare-unit-current')
@@ -551,6 +552,55 @@ def keyerrors(ctx, ci, cc):
       if isinstance(n, ast.Call) and dotted(n.func) in ('int', 'Fraction'):
         cnt += 1
   ctx.unanalysed.append('%d subscript / int() / Fraction() sites in ABCTune are potential implicit raisers that this open-world analysis does not decide' % cnt)
+
+
+def midi_range_inclusive(ctx, rule='PITCH/midi-range-inclusive'):
+  """A note is rejected for its pitch exactly when the pitch lies outside 0..127: the guard of every raise that compares a value with
+  MIN_MIDI_PITCH / MAX_MIDI_PITCH is evaluated for that value = 0, 127 (must pass) and -1, 128 (must raise)."""
+  from sa import scenario, pathval
+  fi = ctx.func('abc_parser:ABCTune._parse_music_code')
+  n = 0
+  for st in U.walk_stmts(fi.node):
+    if not (isinstance(st, ast.If) and any(isinstance(x, ast.Raise) for x in st.body)):
+      continue
+    tx = st.test
+    atoms = set(norm_text(a) for a in ast.walk(tx) if isinstance(a, (ast.Name, ast.Attribute)) and isinstance(getattr(a, 'ctx', None), ast.Load))
+    if not any(a.split('.')[-1] in ('MIN_MIDI_PITCH', 'MAX_MIDI_PITCH') for a in atoms):
+      continue
+    subj = sorted(a for a in atoms if a.split('.')[-1] not in ('MIN_MIDI_PITCH', 'MAX_MIDI_PITCH') and a not in ('constants', 'range') and
+                  not any(b != a and b.startswith(a + '.') for b in atoms))
+    n += 1
+    cons = 'a pitch is refused exactly outside 0..127 (%s)' % norm_text(st.test)[:50]
+    if len(subj) != 1:
+      ctx.note('midi range subject candidates: %s' % subj)
+      why = 'cannot classify: the value compared with the MIDI pitch range in `%s` is not a single name' % norm_text(st.test)[:60]
+      ctx.ob(rule, fi, st, False, why, construct=cons, unknown=why)
+      continue
+    # module constants are folded in the module's own context (MIN_MIDI_PITCH has another value in pianoroll_lib)
+    fdr = fold.Folder(ctx.P, ctx.S)
+    consts_ = {}
+    for a_ in ast.walk(tx):
+      if isinstance(a_, (ast.Name, ast.Attribute)) and norm_text(a_).split('.')[-1] in ('MIN_MIDI_PITCH', 'MAX_MIDI_PITCH'):
+        try:
+          k_ = fdr.expr(fi.module, a_, {})
+        except Exception:      # pylint: disable=broad-except
+          k_ = None
+        if isinstance(k_, int):
+          consts_[norm_text(a_)] = ast.Constant(value=k_)
+    for v, want in ((0, False), (127, False), (-1, True), (128, True)):
+      got = scenario.fold_numeric(pathval.subst(tx, dict(consts_, **{subj[0]: ast.Constant(value=v)})), {})
+      if got is None:
+        why = 'cannot classify: `%s` cannot be evaluated for %s = %d' % (norm_text(st.test)[:60], subj[0], v)
+        ctx.ob(rule, fi, st, False, why, construct=cons + ' @ %d' % v, unknown=why)
+      else:
+        ok = bool(got) == want
+        ctx.ob(rule, fi, st, ok, 'pitch %d is %s' % (v, 'refused' if want else 'accepted') if ok else
+               'the test `%s` %s pitch %d: %s' % (norm_text(st.test)[:60], 'refuses' if got else 'accepts', v,
+                                                    'a note on MIDI pitch %d is valid (0..127 inclusive) and its tune is dropped with ABCParseError' % v if got else 'a pitch outside 0..127 is stored into the sequence'),
+               construct=cons + ' @ %d' % v, definite=True)
+  if n == 0:
+    why = 'cannot classify: no raise guarded by a comparison with MIN_MIDI_PITCH / MAX_MIDI_PITCH in ABCTune._parse_music_code'
+    ctx.ob(rule, fi, fi.node, False, why, construct='a pitch is refused exactly outside 0..127', unknown=why)
 
 
 def zero_is_a_value(ctx, ci):
